@@ -7,7 +7,7 @@
 
   The decoder accepts every length/width variant of the format.  Outside the value model and
   reported as `unsupported`: extension types (c7..c9, d4..d8; -1 is a timestamp for the codec),
-  map keys that are not strings.  0xc1 is `malformed`.
+  map keys that are not strings, maps with a repeated key.  0xc1 is `malformed`.
 -/
 import Nexus.Codec.BytesLemmas
 
@@ -120,7 +120,7 @@ def decF : Nat → Bytes → DRes (CVal × Bytes)
     | .negfix t => .ok (.int ((t : Int) - 256), rest)
     | .fixstr n => mapV .str (takeN n rest)
     | .fixarr n => mapV .list (decItems (decF fuel) n rest)
-    | .fixmap n => mapV .dict (decPairs decKey (decF fuel) n rest)
+    | .fixmap n => mapV .dict (decPairs decKey (decF fuel) n [] rest)
     | .tag 0xc0 => .ok (.null, rest)
     | .tag 0xc2 => .ok (.bool false, rest)
     | .tag 0xc3 => .ok (.bool true, rest)
@@ -150,11 +150,11 @@ def decF : Nat → Bytes → DRes (CVal × Bytes)
       | .error e => .error e
     | .tag 0xde =>
       match readBE 2 rest with
-      | .ok (n, r) => mapV .dict (decPairs decKey (decF fuel) n r)
+      | .ok (n, r) => mapV .dict (decPairs decKey (decF fuel) n [] r)
       | .error e => .error e
     | .tag 0xdf =>
       match readBE 4 rest with
-      | .ok (n, r) => mapV .dict (decPairs decKey (decF fuel) n r)
+      | .ok (n, r) => mapV .dict (decPairs decKey (decF fuel) n [] r)
       | .error e => .error e
     | .tag 0xc1 => .error .malformed
     | .tag _ => .error .unsupported      -- ext 8/16/32, fixext 1..16
